@@ -29,6 +29,7 @@ var userKinds = map[string][]string{
 }
 
 type genCfg struct {
+	noCustom bool
 	okPT     bool // PostTransforms never fail
 	cbHeavy  bool // user tests and PostTransforms on (almost) every node
 	easy     bool // few, easily satisfied tests
@@ -180,6 +181,9 @@ func genNode(r *rand.Rand, g genCfg, depth int, parent string) *Node {
 	}
 	k := pick(r, kinds)
 	if parent == "ptr" && k == "ptr" {
+		k = "prim"
+	}
+	if g.noCustom && k == "custom" {
 		k = "prim"
 	}
 	switch k {
